@@ -24,16 +24,25 @@ import (
 const nChan = 4
 
 // Channels: c1 ledger channel with peers (p0,p1); c2 sub-channel of c1 (same peers, created
-// with c1's id as parent); c3 ledger channel with peers (p0,p3); c4 ledger channel with 10
-// participants and 10 peers (p0,p1,p3,p4..p10: it shares a peer with every other channel).
-// p0 is the own address. 10 participants is the first number at which the width of the
-// zero-padded signature keys could change; c4's nonce is the first one from 104 on that puts
-// its id strictly between the smallest and the largest id of c1..c3, so that in key order
-// (the order RestoreAll and the table iterators walk) channels lie before AND behind it.
+// with c1's id as parent); c3 ledger channel with THREE participants and the two peers (p0,p3)
+// - the peer p3 takes part with two accounts, so the number of signature slots (participants)
+// differs from the number of peers, which the Persister interface allows; c4 ledger channel
+// with 10 participants and 10 peers (p0,p1,p3,p4..p10: it shares a peer with every other
+// channel). p0 is the own address. 10 participants is the first number at which the width of
+// the zero-padded signature keys could change.
+//
+// Channel ids are hashes of the parameters; the nonces are chosen at start-up by a
+// deterministic search (first nonce from a fixed start for which the id has the wanted
+// shape) so that the ids cover the ends of the key space: c1's id begins with the byte 0x00,
+// c2's with 0xff (both are channels of the peers p0 and p1, which thus have a channel at
+// either end of every table and range that is ordered or bounded by id - a scan with an upper
+// bound 'prefix + 0xff' ends before c2), and c4's nonce is the first one from 104 on that puts
+// its id strictly between the smallest and the largest id of c1..c3, so that in key order (the
+// order RestoreAll and the table iterators walk) channels lie before AND behind it.
 var cParams = func() (p [nChan]*channel.Params) {
-	p[0] = mkParams(2, channel.NoApp(), 101, true)
-	p[1] = mkParams(2, channel.NoApp(), 102, false)
-	p[2] = mkParams(2, channel.NoApp(), 103, true)
+	p[0] = searchParams(2, true, 1000, func(id channel.ID) bool { return id[0] == 0x00 })
+	p[1] = searchParams(2, false, 2000, func(id channel.ID) bool { return id[0] == 0xff })
+	p[2] = mkParams(3, channel.NoApp(), 103, true)
 	lo, hi := p[0].ID(), p[0].ID()
 	for _, q := range p[1:3] {
 		id := q.ID()
@@ -44,14 +53,23 @@ var cParams = func() (p [nChan]*channel.Params) {
 			hi = id
 		}
 	}
-	for nonce := int64(104); ; nonce++ {
-		p[3] = mkParams(maxParts, channel.NoApp(), nonce, true)
-		id := p[3].ID()
-		if bytes.Compare(lo[:], id[:]) < 0 && bytes.Compare(id[:], hi[:]) < 0 {
+	p[3] = searchParams(maxParts, true, 104, func(id channel.ID) bool {
+		return bytes.Compare(lo[:], id[:]) < 0 && bytes.Compare(id[:], hi[:]) < 0
+	})
+	return p
+}()
+
+// searchParams returns the parameters of an n-party channel with the first nonce >= from whose
+// id satisfies ok (an id is a hash: a first byte is hit after 256 nonces on average; the
+// search depends on the fixture keys only, never on chance).
+func searchParams(n int, ledger bool, from int64, ok func(id channel.ID) bool) *channel.Params {
+	for nonce := from; nonce < from+1_000_000; nonce++ {
+		if p := mkParams(n, channel.NoApp(), nonce, ledger); ok(p.ID()) {
 			return p
 		}
 	}
-}()
+	panic("engine error: no nonce gives a channel id of the wanted shape")
+}
 
 var cPeerIdx = [nChan][]int{{0, 1}, {0, 1}, {0, 3}, {0, 1, 3, 4, 5, 6, 7, 8, 9, 10}}
 
